@@ -20,7 +20,7 @@ var _ proxy.BeforeRequestHandler = (*Server)(nil)
 //
 // TODO(d.kolyshev): Extract to separate package.
 func (s *Server) HandleBefore(
-	_ *proxy.Proxy,
+	prx *proxy.Proxy,
 	pctx *proxy.DNSContext,
 ) (err error) {
 	clientID, err := s.clientIDFromDNSContext(pctx)
@@ -48,12 +48,21 @@ func (s *Server) HandleBefore(
 	}
 
 	if clientID != "" {
-		key := [8]byte{}
-		binary.BigEndian.PutUint64(key[:], pctx.RequestID)
-		s.clientIDCache.Set(key[:], []byte(clientID))
+		s.clientIDCache.Set(clientIDCacheKey(prx, pctx), []byte(clientID))
 	}
 
 	return nil
+}
+
+// clientIDCacheKey returns the key under which the ClientID of the request
+// pctx, received by prx, is handed over from [Server.HandleBefore] to the
+// request handler.  Request numbers are only unique within one proxy instance,
+// and the connections accepted by a previous instance may still be served by
+// it after a reconfiguration, so the instance is a part of the key.
+func clientIDCacheKey(prx *proxy.Proxy, pctx *proxy.DNSContext) (key []byte) {
+	key = fmt.Appendf(nil, "%p/", prx)
+
+	return binary.BigEndian.AppendUint64(key, pctx.RequestID)
 }
 
 // isBlockedHost returns true if the host is blocked by the current access
